@@ -29,6 +29,7 @@ RULE += (' Also: sized, lazily produced synchronous datasets as sources of every
 RULE += (' Also: every tee pattern also over a source without aclose.')
 RULE += (' Also: three started tee children, two closed one after the other in every order.')
 RULE += (' Also: text / bytes pieces summed over a long stream.')
+RULE += (' Also: partially ordered / NaN keys in nlargest and nsmallest.')
 ASSUMPTIONS = ["the bound's constant was read off the unchanged tree with slack; a buffering tool grows linearly and "
                "crosses it within a few steps, so the verdict does not depend on the exact constant"]
 EXHAUSTIVE = {"quick": False, "thorough": False}
@@ -253,6 +254,10 @@ def _tools():
     T["max"] = (1, 1, lambda S, n: A.max(S[0], key=lambda x: x.key), "agg", {})
     T["reduce"] = (1, 1, lambda S, n: A.reduce(lambda a, b: b, S[0]), "agg", {})
     T["nlargest5"] = (1, 5, lambda S, n: A.nlargest(S[0], 5), "agg", {})
+    # keys that are not totally ordered (disjoint sets; NaN gaps): whatever such keys do to the RESULT, the selection still
+    # holds n candidates and not the stream
+    T["nlargest5_partial_order"] = (1, 5, lambda S, n: A.nlargest(S[0], 5, key=lambda x: frozenset((x.key,))), "agg", {})
+    T["nsmallest5_nan_gaps"] = (1, 5, lambda S, n: A.nsmallest(S[0], 5, key=lambda x: float("nan") if x.key % 3 == 0 else float(x.key)), "agg", {})
     T["nlargest40"] = (1, 40, lambda S, n: A.nlargest(S[0], 40, key=lambda x: x.key % 97), "agg", {})
     T["nsmallest40"] = (1, 40, lambda S, n: A.nsmallest(S[0], 40, key=lambda x: -x.key), "agg", {})
     T["nsmallest9"] = (1, 9, lambda S, n: A.nsmallest(S[0], 9, key=lambda x: -x.key), "agg", {})
